@@ -961,7 +961,10 @@ def _family_x():
         sv = [SET(0, v)] if v is not None else []
         sw = [SET(1, w)] if w is not None else []
         yield sv + [M(1), TC(0, 0), M(2)]
-        yield [TC(0, 0)] + sv + [M(1), TC(0, 0, True)]                 # the same template before and after the SetContext
+        if v is not None:                                              # (without the SetContext: the same file twice)
+            yield [TC(0, 0)] + sv + [M(1), TC(0, 0, True)]             # the same template before and after the SetContext
+        else:
+            yield [TC(1, 0)] + sv + [M(1), TC(0, 0, True)]
         yield sv + sw + [TC(0, 0), M(1), TC(1, 1)]
         yield sw + [M(1), TC(1, 1)] + sv + [C(0), TC(0, 0)]
         yield [SET(0, 1 - v if v is not None else 0)] + sv + [TC(0, 0), M(3)]   # a later SetContext overrides
